@@ -389,6 +389,8 @@ pub mod prelude;
 pub mod program;
 pub mod unsize;
 pub mod util;
+#[cfg(star_frame_verif)]
+pub mod verif_hooks;
 
 /// Internal paths mainly for use in macros. DO NOT USE MANUALLY. NOT PART OF THE PUBLIC API.
 #[doc(hidden)]
